@@ -1,10 +1,99 @@
+import TinsModel.Matching.Refine
 import Driver.Util
-/- line-protocol driver for property C14 (stub until the area is built) -/
-namespace Driver.C14
-open Driver
+/- line-protocol driver for property C14 (response matching).
 
-def step (st : Unit) (_line : String) : Unit × String := (st, "unimplemented")
-def specStep (st : Unit) (_line : String) : Unit × String := (st, "unimplemented")
+   op lines:
+     layout                      -> the header sizes / constants the model assumes
+     m <stack> <reply hex>       -> r=0 | r=1 | FAULT <site> <need> <len>
+   <stack> = layers joined by '/', outermost first; a layer is `name` or `name:key=hex,key=hex,…`
+   (keys the model does not need — the API-level fields the harness builds the object from — are ignored). -/
+namespace Driver.C14
+open Driver Tins Tins.Matching
+
+def kvs (s : String) : List (String × String) :=
+  (s.splitOn ",").filterMap fun kv => match kv.splitOn "=" with
+    | [k, v] => some (k, v)
+    | _ => none
+
+def getHex (m : List (String × String)) (k : String) : Option Bytes :=
+  (m.lookup k).bind parseHex
+
+def getByte (m : List (String × String)) (k : String) : Option UInt8 :=
+  match getHex m k with
+  | some [b] => some b
+  | _ => none
+
+def parseLayer (s : String) : Option Layer :=
+  let (name, args) := match s.splitOn ":" with
+    | [n] => (n, "")
+    | [n, a] => (n, a)
+    | _ => ("?", "")
+  let m := kvs args
+  match name with
+  | "eth" => do pure (.eth (← getHex m "src") (← getHex m "dst"))
+  | "dot3" => do pure (.dot3 (← getHex m "src") (← getHex m "dst"))
+  | "dot1q" => do pure (.dot1q (← getHex m "tci"))
+  | "ip" => do pure (.ip (← getHex m "hdr"))
+  | "ipv6" => do pure (.ipv6 (← getHex m "src") (← getHex m "dst"))
+  | "tcp" => do pure (.tcp (← getHex m "sp") (← getHex m "dp"))
+  | "udp" => do pure (.udp (← getHex m "sp") (← getHex m "dp"))
+  | "icmp" => do pure (.icmp (← getByte m "type") (← getHex m "id") (← getHex m "seq"))
+  | "icmpv6" => do pure (.icmpv6 (← getByte m "type") (← getHex m "id") (← getHex m "seq"))
+  | "dns" => do pure (.dns (← getHex m "id"))
+  | "bootp" => do pure (.bootp (← getHex m "xid"))
+  | "dhcp" => do pure (.bootp (← getHex m "xid"))
+  | "dhcpv6" => do pure (.dhcpv6 (← getHex m "hdr"))
+  | "radiotap" => some .radiotap
+  | "loopback" => do pure (.loopback (← getHex m "family"))
+  | "arp" => do pure (.arp (← getHex m "spa") (← getHex m "tpa"))
+  | "raw" => some .raw
+  | "other" => some .other
+  | "cacher" => some .cacher
+  | _ => none
+
+def parseStack (s : String) : Option (List Layer) := (s.splitOn "/").mapM parseLayer
+
+def showOut : Out Bool → String
+  | .ok true => "r=1"
+  | .ok false => "r=0"
+  | .fault site need len => s!"FAULT model:{site} need={need} len={len}"
+
+def layoutLine : String :=
+  "layout eth=14 dot3=14 dot1q=4 ip=20 ipv6=40 tcp=20 udp=8 icmp=8 icmpv6=8 dns=12 bootp=236 dhcpv6=4 " ++
+  "radiotap=4 loopback=4 arp=28 icmp.echo=8/0 icmp.ts=13/14 icmp.mask=17/18 icmp.unreach=3 icmpv6.echo=128/129 " ++
+  "icmpv6.rs=133/134 icmpv6.ns=135/136 ip.proto.icmp=1 ext=0,43,44,51,59,60,135"
+
+def step (st : Unit) (line : String) : Unit × String :=
+  match words line with
+  | ["layout"] => (st, layoutLine)
+  | "m" :: stack :: reply :: _ =>
+    match parseStack stack, parseHex reply with
+    | some s, some b => (st, showOut (matchStack s b))
+    | _, _ => (st, "bad-op")
+  | _ => (st, "bad-op")
+
+/-- spec mode: `<op> ||| <implementation output>` -/
+def specStep (st : Unit) (line : String) : Unit × String :=
+  match line.splitOn " ||| " with
+  | [op, out] =>
+    match words op with
+    | ["layout"] => (st, if out.trimAscii.toString == layoutLine then "ok layout" else "violates layout-assumption")
+    | "m" :: stack :: reply :: _ =>
+      match parseStack stack, parseHex reply with
+      | some s, some b =>
+        -- PDUCacher is not a protocol layer: the specification sees the wrapped stack
+        match toSpec? (s.filter (· != Layer.cacher)) with
+        | none => (st, "unspecified outside-fragment")
+        | some r =>
+          let o := out.trimAscii.toString
+          match demand r b with
+          | .unspec => (st, "unspecified")
+          | .accept => (st, if o == "r=1" then "ok accept" else s!"violates mirror_accepted got {o}")
+          | .reject => (st, if o == "r=0" then "ok reject" else s!"violates stranger_rejected got {o}")
+      | _, _ => (st, "bad-op")
+    | _ => (st, "bad-op")
+  | _ => (st, "bad-line")
+
 def initModel : Unit := ()
 def initSpec : Unit := ()
 
